@@ -37,6 +37,7 @@ class Latch {
    * Decrement the counter in a non-blocking manner.
    **/
   void count_down(uint32_t n = 1) noexcept {
+    DISPENSO_VERIF_POINT("latch.count_down.fetch_sub", &impl_);
     if (impl_.intrusiveStatus().fetch_sub(n, std::memory_order_acq_rel) == 1) {
       impl_.notify(0);
     }
@@ -51,6 +52,7 @@ class Latch {
    * @return true only if the internal counter has reached zero.
    **/
   bool try_wait() const noexcept {
+    DISPENSO_VERIF_POINT("latch.try_wait.load", &impl_);
     return impl_.intrusiveStatus().load(std::memory_order_acquire) == 0;
   }
 
@@ -65,6 +67,7 @@ class Latch {
    * Decrement the counter and wait
    **/
   void arrive_and_wait() noexcept {
+    DISPENSO_VERIF_POINT("latch.arrive.fetch_sub", &impl_);
     if (impl_.intrusiveStatus().fetch_sub(1, std::memory_order_acq_rel) > 1) {
       impl_.wait(0);
     } else {
